@@ -73,3 +73,20 @@ package ipa
 //@ loop 1 invariant forall k int :: 0 <= k && k < 256 ==> lagrangeEvals[k] == (point - fr_of_int(k)) * Aprime(k)
 //@ loop 2 invariant 0 <= i && i <= 256 && totalProd == Az(point) && len(lagrangeEvals) == 256 && fresh(lagrangeEvals)
 //@ loop 2 invariant forall k int :: 0 <= k && k < 256 ==> lagrangeEvals[k] == (k < i ? fr_inv((point - fr_of_int(k)) * Aprime(k)) * Az(point) : fr_inv((point - fr_of_int(k)) * Aprime(k)))
+
+// ---- prover.go: (de)serialisation (C10)
+
+//@ func IPAProof.Read
+//@ props C10
+//@ prelude field curve bytesint io frint
+//@ let p0 = rpos(r)
+//@ requires 0 <= rpos(r) && rpos(r) <= rd_len(r) && rpos(r) <= rd_fail(r)
+//@ ensures result == nil <==> (avail(r, p0, 544) && okPoints8(r, p0) && okPoints8(r, p0 + 256) && okScalarAt(r, p0 + 512))
+//@ ensures result == nil ==> rpos(r) == p0 + 544 && len(ip.L) == 8 && len(ip.R) == 8
+//@ ensures rpos(r) >= p0 && rpos(r) <= p0 + 544
+//@ modifies *ip, rpos(r)
+//@ loop 0 invariant 0 <= i && i <= 8 && rpos(r) == p0 + 32*i && len(L) == i && avail(r, p0, 32*i) && (cap(L) == 0 || sinceloop(L))
+//@ loop 0 invariant okPrefix8(r, p0, i)
+//@ loop 1 invariant 0 <= i && i <= 8 && rpos(r) == p0 + 256 + 32*i && len(R) == i && avail(r, p0, 256 + 32*i) && (cap(R) == 0 || sinceloop(R)) && len(ip.L) == 8
+//@ loop 1 invariant okPoints8(r, p0)
+//@ loop 1 invariant okPrefix8(r, p0 + 256, i)
